@@ -43,7 +43,7 @@ fn range(u: &mut Unstructured) -> RangeSpec {
 fn script(u: &mut Unstructured, wide: bool) -> Vec<Step> {
     let n = u.int_in_range(0usize..=8).unwrap_or(0);
     (0..n)
-        .map(|_| match u.int_in_range(0u8..=if wide { 13 } else { 4 }).unwrap_or(0) {
+        .map(|_| match u.int_in_range(0u8..=if wide { 15 } else { 4 }).unwrap_or(0) {
             0 | 1 => Step::Next,
             2 | 3 => Step::NextBack,
             4 => Step::Dbg,
@@ -55,6 +55,8 @@ fn script(u: &mut Unstructured, wide: bool) -> Vec<Step> {
             10 => Step::Fold,
             11 => Step::Skip(u.int_in_range(0u8..=3).unwrap_or(0)),
             12 => Step::StepBy(u.int_in_range(0u8..=2).unwrap_or(0)),
+            13 => Step::RFold,
+            14 => Step::RevLast,
             _ => Step::RevCollect,
         })
         .collect()
